@@ -24,7 +24,7 @@ import common  # noqa: E402
 from translate import base  # noqa: E402
 
 MODULES = ["ktn_cfg", "hef", "similarity", "io_spec", "bh", "neb", "lbfgs_wiring", "align", "pairs", "history",
-           "graph", "model_data", "moves", "surfaces", "hash_sites"]
+           "graph", "model_data", "moves", "surfaces", "hash_sites", "bonds", "transcripts"]
 
 
 class Session:
